@@ -51,6 +51,9 @@ pub enum DirOp {
     /// hand one keyed export of `dir` to the manager by its own file path (register_shards_by_path), as the
     /// global-dedup path does with a downloaded shard
     RegisterByPath { dir: u8, pick: u64 },
+    /// re-export one shard of `dir` into the same directory with an expiry `valid_secs` from now (unkeyed, as the
+    /// shard cache holds them); once expired it is no longer loaded — and must not be deleted by a consolidation
+    ExportWithExpiry { dir: u8, pick: u64, valid_secs: u64 },
 }
 
 #[derive(Clone, Debug, Serialize, Deserialize, PartialEq)]
@@ -828,6 +831,21 @@ async fn run_dir_history(plan: &Plan, models: &[ModelShard], rep: &mut RunReport
                     }
                 }
             },
+            DirOp::ExportWithExpiry { dir, pick, valid_secs } => {
+                let d = *dir as usize % 3;
+                if let Some(mgr) = &dirs[d].mgr {
+                    let _ = mgr.flush().await;
+                }
+                let list: Vec<_> = list_shards(&dirs[d].path).into_iter().filter(|(_, _, b)| ref_shard_parse(b).map(|p| p.footer.hmac_key == ZERO_H).unwrap_or(false)).collect();
+                if !list.is_empty() {
+                    let (path, _h, _b) = &list[(*pick % list.len() as u64) as usize];
+                    if let Ok(sf) = MDBShardFile::load_from_file(path) {
+                        if sf.export_with_expiration(&dirs[d].path, Duration::from_secs(*valid_secs)).is_ok() {
+                            rep.count("ops:unkeyed_export_with_expiry", 1);
+                        }
+                    }
+                }
+            },
             DirOp::RegisterByPath { dir, pick } => {
                 let d = *dir as usize % 3;
                 let cands: Vec<usize> = (0..exports.len()).filter(|&k| exports[k].0 as usize == d && export_paths[k].exists()).collect();
@@ -1249,6 +1267,11 @@ fn gen(seed: u64, run: u64, focus: &str, tier: Tier) -> Plan {
                         bursts.push(DirOp::Plant { dir: d, m: rng.below(ns) as u8 });
                     }
                 }
+                if rng.chance(1, 4) {
+                    // a shard with an expiry in the directory, possibly past it when the consolidation runs
+                    bursts.push(DirOp::ExportWithExpiry { dir: d, pick: rng.next_u64(), valid_secs: *rng.pick(&[0u64, 1, 10, 100_000]) });
+                    bursts.push(DirOp::AdvanceClock { secs: *rng.pick(&[0u64, 2, 11, 1001]) });
+                }
                 bursts.push(DirOp::Consolidate { dir: d, threshold: *rng.pick(&[0u64, 1500, 4000, 10_000, 30_000, 64 << 20]) });
                 bursts.push(DirOp::Query { dir: d, seed: rng.next_u64(), n: 6 });
             }
@@ -1423,7 +1446,49 @@ fn run_direct_dedup(p: &Plan, models: &[ModelShard], rep: &mut RunReport) {
     }
 }
 
+/// A writer that fails after a given number of bytes (a full disk).
+struct FailingWriter {
+    left: usize,
+}
+
+impl std::io::Write for FailingWriter {
+    fn write(&mut self, buf: &[u8]) -> std::io::Result<usize> {
+        if self.left == 0 {
+            return Err(std::io::Error::new(std::io::ErrorKind::Other, "xsim: no space left"));
+        }
+        let n = buf.len().min(self.left);
+        self.left -= n;
+        Ok(n)
+    }
+    fn flush(&mut self) -> std::io::Result<()> {
+        Ok(())
+    }
+}
+
 fn run_setops_direct(p: &Plan, models: &[ModelShard], rep: &mut RunReport) {
+    // fault history (one run in three): an earlier set operation on this thread failed midway — its output ran out of
+    // space, or one input ended early; whatever it returned, the operations below must be unaffected
+    if mix(&[p.query_seed, 0xfa11]) % 3 == 0 && models.len() >= 2 {
+        let (_s0, b0) = serialize_model(&models[0]);
+        let (_s1, b1) = serialize_model(&models[1]);
+        if let (Ok(i0), Ok(i1)) = (MDBShardInfo::load_from_reader(&mut Cursor::new(&b0)), MDBShardInfo::load_from_reader(&mut Cursor::new(&b1))) {
+            let _ = take_last_panic();
+            let r = std::panic::catch_unwind(|| {
+                if mix(&[p.query_seed, 1]) % 2 == 0 {
+                    let mut w = FailingWriter { left: (mix(&[p.query_seed, 2]) % (b0.len() as u64 + b1.len() as u64 + 1)) as usize };
+                    let _ = mdb_shard::set_operations::shard_set_union(&i0, &mut Cursor::new(&b0), &i1, &mut Cursor::new(&b1), &mut w);
+                } else {
+                    let cut = (mix(&[p.query_seed, 3]) % (b1.len() as u64 + 1)) as usize;
+                    let mut out = Vec::new();
+                    let _ = mdb_shard::set_operations::shard_set_difference(&i0, &mut Cursor::new(&b0[..]), &i1, &mut Cursor::new(&b1[..cut]), &mut out);
+                }
+            });
+            if r.is_err() {
+                rep.violate("C10.c", "panic-in-failing-set-operation", format!("a set operation whose output or input failed panicked: {:?}", take_last_panic()));
+            }
+            rep.count("fault:set_operation_failed_midway_before_this_run", 1);
+        }
+    }
     // cursor-level union / difference of consecutive pairs
     for i in 0..models.len() {
         let a = &models[i];
